@@ -29,12 +29,34 @@ def _ops(d, rng, seed, n):
     return [(r["inst"], r["model_diff"]) for r in rs if r.get("model_diff")], len(rs)
 
 
+def replay_one(fam, case, d):
+    """re-runs one stored cone case (check.py <ID> --replay <cone replay>)"""
+    if fam == "ops":
+        r = opsfam.run_ops(d, 99001, case["instance"], case["ops"])
+        return [(case, r["model_diff"])] if r.get("model_diff") else []
+    if fam == "neigh":
+        r = c11.run_one((d, 99002, case["instance"], case["walk"]))
+        return [(case, r["model_diff"])] if r.get("model_diff") else []
+    if fam == "tour":
+        obs, _ = netobs.observe(case["instance"], d, "k99003")
+        r = c12.run_tours(d, 99003, case["instance"], obs, case["tours"])
+        strip = ("S ", "X ")
+    else:
+        r = c15.run_trans(d, 99004, case["instance"], case)
+        strip = ("TINV ", "ICHK ", "TOS ")
+    if r["hstatus"] != "OK" or r["dstatus"] != "OK":
+        return [(case, "harness=%s driver=%s" % (r["hstatus"], r["dstatus"]))]
+    fd = lib.first_diff(r["impl"], [l for l in r["model"] if not l.startswith(strip)])
+    return [(case, "line %d: impl=[%s] model=[%s]" % (fd[0], fd[1][:300], fd[2][:300]))] if fd else []
+
+
 def _neigh(d, rng, seed, n):
     profiles = [{"slots": "some"}, {"slots": "some", "depots": "scarce"}, {"slots": "some", "type_limits": "all"},
                 {"slots": "some", "seg_limits": "all", "ntypes": 2}, {"slots": "some", "zero_shunting": True}]
     cases = [(d, 60000 + k, instgen.gen_instance(rng, rng.choice(profiles)), c11.gen_walk(rng)) for k in range(n)]
     rs = lib.pmap(c11.run_one, cases)
-    return [({"instance": r["inst"]}, r["model_diff"]) for r in rs if r.get("model_diff")], len(rs)
+    walks = {c[1]: c[3] for c in cases}
+    return [({"instance": r["inst"], "walk": walks[r["k"]]}, r["model_diff"]) for r in rs if r.get("model_diff")], len(rs)
 
 
 def _lines(d, rng, seed, n, fam):
@@ -66,8 +88,15 @@ def _lines(d, rng, seed, n, fam):
 
 def cone_correspondence(pid, tier, seed, d):
     """returns (list of (family, case, first difference), {family: cases compared})"""
+    import json
     import os
-    if os.environ.get("VERIF_REPLAY") or pid not in CONES:
+    rp = os.environ.get("VERIF_REPLAY")
+    if rp:
+        r = json.load(open(rp))
+        if r.get("kind") == "correspondence-broken" and r.get("family") and r.get("case"):
+            return [(r["family"], c, m) for (c, m) in replay_one(r["family"], r["case"], d)], {r["family"]: 1}
+        return [], {}
+    if pid not in CONES:
         return [], {}
     rng = random.Random(seed * 104729 + int(pid[1:]) * 31 + 7)
     sizes = SIZES["thorough" if tier == "thorough" else "quick"]
@@ -85,5 +114,11 @@ def cone_correspondence(pid, tier, seed, d):
         else:
             ds, m = _lines(d, rng, seed, n, fam)
         counts[fam] = m
-        diffs += [(names[fam], case, msg) for (case, msg) in ds]
+        diffs += [(fam, case, msg) for (case, msg) in ds]
     return diffs, counts
+
+
+NAMES = {"ops": "Schedule.v vs schedule.rs / schedule/modifications.rs (operation histories)",
+         "neigh": "Swaps.v / SwapsRot.v vs local_search/neighborhood (walks)",
+         "tour": "Tour.v vs tour.rs / tour/modifications.rs (tour operations)",
+         "trans": "Transition.v / TOpt.v vs transition*.rs, transition_local_search, transition_cycle_tsp"}
